@@ -131,7 +131,7 @@ API_COVERAGE = {
 }
 
 LEVEL_TEXT = (
-    "Lean 4 theorems (176 audited) over an executable model of (a) the Buffer edit API: insert / overwrite / "
+    "Lean 4 theorems (177 audited) over an executable model of (a) the Buffer edit API: insert / overwrite / "
     "delete with ANY integer count / delete_before_cursor / newline / insert_line_above+below (text and cursor) / "
     "join_next_line(separator) / join_selected_lines / swap / transform_lines+current_line+region / indent / "
     "unindent / reshape_text / the text, cursor_position and document setters incl. read-only buffers and "
